@@ -398,6 +398,28 @@ def c17(ctx):
                   exhaustive=True)
 
 
+# ----------------------------------------------------------------------------- C16
+@prop("C16")
+def c16(ctx):
+    nn, seeds = (150, [ctx.seed]) if ctx.quick() else (2000, [ctx.seed, ctx.seed + 1, ctx.seed + 2, ctx.seed + 3])
+    cases = gen(ctx, "Gen_C16", cfgtext(invariants=["RenderOK", "Emit"], constants=dict(NativeN=nn, Seeds=tlanums(seeds))), timeout=3000)
+    events = []
+    for op in ("ecdsa-render", "ecdsa-native", "ecdsa-accept"):
+        events += harness(ctx, ["exec", op], [c for c in cases if c["what"] == op])
+    rejects = judge(ctx, "Trace_C16", events)
+    n = {"p256": 32, "p384": 48, "p521": 66}
+    ctx.notes["native_signatures_with_a_short_half"] = sum(1 for e in events if e["op"] == "ecdsa-native" and e["res"] == "ok" and
+                                                           (e["out"][0] == 0 or e["out"][n[e["curve"]]] == 0))
+    return report(ctx, events, rejects,
+                  nontrivial=lambda e: e["res"] in ("ok", "ErrVerification"),
+                  key=lambda e: json.dumps({k: v for k, v in e.items() if k not in ("out", "res", "stdv", "ver", "sig", "exactvalid")}, sort_keys=True),
+                  rule="TLC enumerates (1) ASN.1 (r, s) pairs of every length class (full, 1 or 2 leading zero bytes, half, 2 bytes, value 1, order-1) and out-of-range "
+                       "r (zero, negative, too long) for the crypto.Signer path, under every ES algorithm for every curve; (2) native and opaque signing of N "
+                       "messages per curve (count of signatures with a leading-zero half reported); (3) genuinely valid (r, s) of classes normal / short r / short "
+                       "s (found by seeded search) offered to the built-in verifier in 19 renderings; TLC judges widths, bytes and verdicts against RenderRS",
+                  exhaustive=True)
+
+
 def setup():
     ctx = Ctx("setup", "quick", 1)
     try:
